@@ -52,6 +52,36 @@ Proof.
   rewrite Hty in D1. rewrite D1 in D2. inversion D2. reflexivity.
 Qed.
 
+(* list-level soundness on ARBITRARY bytes: whatever the decoder accepts has
+   exactly the requested types, is well-formed, and fits 256 bits - so it
+   is never a value the encoder would refuse or a field of another kind *)
+Lemma spec_fields_sound tys data : forall i toks,
+  spec_fields tys data i = Some toks ->
+  map type_of toks = tys /\ Forall wf_token toks /\ forallb fits256 toks = true.
+Proof.
+  induction tys as [|ty r IH]; intros i toks; cbn [spec_fields].
+  - intro E; inversion E; subst. repeat split; constructor.
+  - destruct (spec_field ty data i) as [t|] eqn:Ef; [|discriminate].
+    destruct (spec_fields r data (i + 1)) as [ts|] eqn:Er; [|discriminate].
+    intro E; inversion E; subst; clear E.
+    destruct (spec_field_sound ty data i t Ef) as (Hty & Hwf & Hfit & _).
+    destruct (IH (i + 1) ts Er) as (Htys & Hwfs & Hfits).
+    split; [cbn [map]; rewrite Hty, Htys; reflexivity|].
+    split; [constructor; assumption|].
+    cbn [forallb]. rewrite Hfit, Hfits. reflexivity.
+Qed.
+
+Theorem dec_impl_sound tys data toks :
+  dec_impl tys data = Some toks ->
+  map type_of toks = tys /\ Forall wf_token toks /\ enc_spec toks <> None.
+Proof.
+  rewrite dec_impl_eq_spec. unfold dec_spec. intro E.
+  destruct (spec_fields_sound tys data 0 toks E) as (Hty & Hwf & Hfit).
+  split; [exact Hty|]. split; [exact Hwf|].
+  unfold enc_spec. rewrite Hfit. discriminate.
+Qed.
+
 Print Assumptions enc_spec_length_eq_size.
+Print Assumptions dec_impl_sound.
 Print Assumptions enc_impl_injective.
 Print Assumptions enc_impl_length_eq_size.
